@@ -199,7 +199,7 @@ where
 
 pub fn differential(ctx: &mut Ctx) {
     let mut rng = ctx.rng(0xC06);
-    let histories = ctx.by_tier(8, 60);
+    let histories = ctx.by_tier(8, 300);
     let len = ctx.by_tier(200, 600);
     run_kind::<Bdd>(ctx, &mut rng, histories, len);
     run_kind::<Bcdd>(ctx, &mut rng, histories, len);
